@@ -114,7 +114,7 @@ var (
 	authHeaderRegex  = regexp.MustCompile(`^[A-Za-z0-9-]+(:[^:'" ]+)?$`)
 )
 
-func (c *updater) setAuthExternal(config ConfigValueGetter, auth *hatypes.AuthExternal, url *ConfigValue) {
+func (c *updater) setAuthExternal(config ConfigValueGetter, auth *hatypes.AuthExternal, url *ConfigValue, user convtypes.TrackingRef) {
 	// auth backend should be configured or requests should be denied
 	// AlwaysDeny will be changed to false if the configuration succeed
 	auth.AlwaysDeny = true
@@ -196,6 +196,9 @@ func (c *updater) setAuthExternal(config ConfigValueGetter, auth *hatypes.AuthEx
 			c.logger.Warn("skipping auth-url on %s: service '%s:%s' was not found", url.Source.String(), name, urlPort)
 			return
 		}
+		// the auth proxy is released when its target backend is rebuilt,
+		// so whoever uses it needs to be rebuilt as well
+		c.tracker.TrackRefs(user, convtypes.TrackingRef{Context: convtypes.ResourceHABackend, UniqueName: backend.ID})
 	default:
 		c.logger.Warn("ignoring auth URL with an invalid protocol on %s: %s", url.Source.String(), urlProto)
 		return
@@ -294,7 +297,8 @@ func (c *updater) buildBackendAuthExternal(d *backData) {
 		}
 		url := config.Get(ingtypes.BackAuthURL)
 		if isBackend && url.Value != "" {
-			c.setAuthExternal(config, &path.AuthExternal, url)
+			c.setAuthExternal(config, &path.AuthExternal, url,
+				convtypes.TrackingRef{Context: convtypes.ResourceHABackend, UniqueName: d.backend.ID})
 		}
 	}
 }
